@@ -1,0 +1,36 @@
+//go:build verif
+
+package batch
+
+import (
+	"context"
+	"time"
+
+	"go.opentelemetry.io/otel/metric/noop"
+
+	"github.com/oxia-db/oxia/oxia/batch"
+	"github.com/oxia-db/oxia/oxia/internal/metrics"
+	"github.com/oxia-db/oxia/proto"
+)
+
+// Verification hooks (add-only, build tag verif): the real write/read batch factories with an
+// executor supplied by the harness. No logic of its own.
+
+func VerifNewWriteBatch(shardId int64, maxByteSize int, requestTimeout time.Duration,
+	execute func(context.Context, *proto.WriteRequest) (*proto.WriteResponse, error)) batch.Batch {
+	return writeBatchFactory{
+		execute:        execute,
+		metrics:        metrics.NewMetrics(noop.NewMeterProvider()),
+		requestTimeout: requestTimeout,
+		maxByteSize:    maxByteSize,
+	}.newBatch(&shardId)
+}
+
+func VerifNewReadBatch(shardId int64, requestTimeout time.Duration,
+	execute func(context.Context, *proto.ReadRequest) (proto.OxiaClient_ReadClient, error)) batch.Batch {
+	return readBatchFactory{
+		execute:        execute,
+		metrics:        metrics.NewMetrics(noop.NewMeterProvider()),
+		requestTimeout: requestTimeout,
+	}.newBatch(&shardId)
+}
